@@ -102,7 +102,7 @@ def gen_big(rng):
 
 
 def gen(rng, tier):
-    if rng.random() < 0.06:
+    if rng.random() < 0.12:
         return {"value_repr": gen_big(rng), "mseed": rng.randrange(1 << 30)}
     val = gen_value(rng)
     return {"value_repr": repr(val), "mseed": rng.randrange(1 << 30)}
